@@ -14,7 +14,7 @@ public:
         AsyncCall *p;
     };
     AsyncCall(const char *aName): name(aName), isCanceled(nullptr) {}
-    virtual ~AsyncCall() {}
+    EQ_VIRTUAL_DTOR ~AsyncCall() {}
     bool cancel(const char *reason) { isCanceled = reason; return false; }   // as the real AsyncCall::cancel(): records, returns false
     const char *name;
     const char *isCanceled;
@@ -115,7 +115,35 @@ static void eq_schedule_call(AsyncCall::Pointer &call)
 }
 #define ScheduleCallHere(call) eq_schedule_call(call)
 
+#ifndef CV_NATIVE
+// goto-cc 6.11 compiles a delete-expression to a bare deallocation: the destructor is NOT called and a class-specific operator
+// delete is ignored (probed; scoped objects and temporaries are destroyed correctly). The C++ meaning -- destructor, then the
+// class's operator delete -- is spelled out here and `delete` in the real text below is routed to it.
+struct EqDeleter {};
+inline void operator<<(EqDeleter, ev_entry *p)
+{
+    if (p) {
+        p->~ev_entry();
+        p->operator delete(p);   // goto-cc treats the (implicitly static) operator delete as a member taking `this`
+    }
+}
+inline void operator<<(EqDeleter, EqEventCall *p)
+{
+    if (p) {
+        p->~EqEventCall();
+        delete p;
+    }
+}
+#define EQ_DELETE EqDeleter() <<
+#define delete EqDeleter() <<
+#else
+#define EQ_DELETE delete
+#endif
+
 #include "event_cc.inc"         // the REAL functions of src/event.cc (sliced)
+#ifndef CV_NATIVE
+#undef delete
+#endif
 
 extern "C" {
 
@@ -145,8 +173,9 @@ void eq_op_cancel(int api, int f, int a, double now)
 int eq_op_check(double now)
 {
     current_dtime = now;
-    AsyncEngine *engine = EventScheduler::GetInstance();     // as EventLoop does: through the AsyncEngine interface
-    return engine->checkEvents(0);
+    // EventLoop calls this through the AsyncEngine interface; goto-cc 6.11 mis-types the virtual dispatch (symex invariant
+    // "assignments must be type consistent" on the thunk's return value), so the call is qualified = non-virtual
+    return EventScheduler::GetInstance()->EventScheduler::checkEvents(0);
 }
 int eq_op_time_remaining(double now)
 {
@@ -168,11 +197,12 @@ void eq_drain(void)
 {
     for (int i = 0; i < eq_queue_n && i < EQ_M; ++i) {
         EqEventCall *c = eq_queue[i];
-        if (c->dialer.canDial(*c))
+        // qualified = non-virtual: goto-cc 6.11's removal of virtual calls would add EventScheduler::checkEvents as a candidate target
+        if (c->dialer.EventDialer::canDial(*c))
             c->dialer.dial(*c);
         else
             ++eq_nstale;
-        delete c;
+        EQ_DELETE c;
         eq_queue[i] = nullptr;
     }
     eq_queue_n = 0;
